@@ -60,20 +60,22 @@ class reducing_adapter {
         if (m_cache[slot].key == key) {
           m_cache[slot].value = m_reducer(m_cache[slot].value, value);
         } else {
-          cache_flush(slot);
-          ASSERT_DEBUG(m_cache[slot].occupied == false);
+          // Install the new entry before sending the evicted one: the send may
+          // run handlers that reduce into this slot.
+          cache_entry evicted    = m_cache[slot];
           m_cache[slot].key      = key;
           m_cache[slot].value    = value;
           m_cache[slot].occupied = true;
+          cache_send(evicted.key, evicted.value);
         }
       }
     }
   }
 
-  void cache_flush(const size_t slot) {
+  void cache_send(const key_type &key, const mapped_type &value) {
     // Use NLNR for reductions
     int next_dest = m_container.comm().router().next_hop(
-        m_container.owner(m_cache[slot].key), ygm::detail::routing_type::NLNR);
+        m_container.owner(key), ygm::detail::routing_type::NLNR);
 
     m_container.comm().async(
         next_dest,
@@ -81,18 +83,25 @@ class reducing_adapter {
            const mapped_type &value) {
           p_reducing_adapter->cache_reduce(key, value);
         },
-        pthis, m_cache[slot].key, m_cache[slot].value);
+        pthis, key, value);
+  }
 
+  void cache_flush(const size_t slot) {
+    // Free the slot before sending: the send may run handlers that reduce.
+    cache_entry entry      = m_cache[slot];
     m_cache[slot].occupied = false;
+    cache_send(entry.key, entry.value);
   }
 
   void cache_flush_all() {
+    // Reductions made by handlers during the flush must re-register the
+    // callback.
+    m_cache_empty = true;
     for (size_t i = 0; i < cache_size; ++i) {
       if (m_cache[i].occupied) {
         cache_flush(i);
       }
     }
-    m_cache_empty = true;
   }
 
   void container_reduction(const key_type &key, const mapped_type &value) {
